@@ -135,7 +135,9 @@ impl<'a> Serialize for DynSer<'a> {
                 }
                 if self.sabotage.is_none() && self.vary(6, 4) == 3 {
                     // map-style (what serde does for structs with flattened fields)
-                    let mut map = s.serialize_map(None)?;
+                    // (a flattened struct gives no length, a map-typed value such as BTreeMap does)
+                    let hint = if self.vary(8, 2) == 1 { Some(fields.len()) } else { None };
+                    let mut map = s.serialize_map(hint)?;
                     for i in order {
                         map.serialize_entry(fields[i].name.as_str(), &self.child(&fields[i].node, &r[i], i))?;
                     }
